@@ -16,7 +16,9 @@ namespace nmtools::index
         
         auto result = result_t {};
 
-        result = ((float)stop - (float)start) / (endpoint ? num - 1 : num);
+        // a single sample (num == 1 with endpoint) is start itself: no step to take
+        const auto div = (endpoint ? num - 1 : num);
+        result = (div > 0) ? ((float)stop - (float)start) / div : 0;
 
         return result;
     }
